@@ -86,8 +86,10 @@ def throwing_program(rng, modified=True, chained=False, evals=False):
     if chained:
         off = rng.choice([100, 7, 1000])
         n = code.count("\n")
-        mappings = ";".join("AA" + vlq(off if i == 0 else 1) + "A" for i in range(n))
-        omap = {"version": 3, "sources": ["orig.ts"], "names": [], "mappings": mappings}
+        # half of the original maps list a source that is never used BEFORE the one that is: the ids of the chained map are its own
+        two = rng.random() < 0.5
+        mappings = ";".join("A" + ("C" if (two and i == 0) else "A") + vlq(off if i == 0 else 1) + "A" for i in range(n))
+        omap = {"version": 3, "sources": (["unused.ts", "orig.ts"] if two else ["orig.ts"]), "names": [], "mappings": mappings}
         code += "//# sourceMappingURL=data:application/json;base64," + base64.b64encode(json.dumps(omap).encode()).decode() + "\n"
     return code, lines, off
 
